@@ -94,12 +94,12 @@ theorem C20_single_waiter_bounded (l : Lim) (now : Nat) (dts : List Nat) (hwf : 
   have hq : minBucket = 128 := rfl
   omega
 
-/-- **Progress, up to four concurrent waiters.** When each of up to four pollers re-polls no sooner
-than 10 ticks after its own last empty poll, any four consecutive gaps of the merged poll sequence
-add up to at least 10 ticks; then within 26 such blocks (104 polls) *some* waiter is granted
-tokens. (Truncation loses < 1 token per poll: a block gains ≥ ⌈(897·10 − 4·1023)/1024⌉ = 5 tokens.)
-Which waiter is served is NOT bounded by this theorem: per-waiter fairness among several pollers
-is not proved (and an independent experiment saw one of four requests wait 15 s at 1 KiB/s). -/
+/-- **Progress without the lock's discipline (up to four pollers polling independently).** This is the theorem that
+was provable of the limiter BEFORE the FIFO lock was added (fix dde9e7c): when each of up to four pollers re-polls no
+sooner than 10 ticks after its own last empty poll, any four consecutive gaps of the merged poll sequence add up to at
+least 10 ticks; then within 26 such blocks (104 polls) *some* poller is granted tokens — which one is not bounded (that
+gap is what exposed the starvation defect). With the lock only the holder polls; the per-request bound for any number
+of connections is `C20_bounded_wait` below. Kept as a statement about `poll` sequences in general. -/
 theorem C20_some_waiter_progress (l : Lim) (now : Nat) (bs : List (Nat × Nat × Nat × Nat))
     (hwf : l.WF now) (hL : 1024 ≤ l.L) (hd : ∀ b ∈ bs, 10 ≤ b.1 + b.2.1 + b.2.2.1 + b.2.2.2)
     (hlen : 26 ≤ bs.length) : 0 < (blockPolls l now bs).2.2 := by
@@ -109,12 +109,9 @@ theorem C20_some_waiter_progress (l : Lim) (now : Nat) (bs : List (Nat × Nat ×
   have := blocks_starved bs l now hwf hL hd hz hne
   omega
 
-/-- **FIFO service order.** Over every history of requests (`take_tokens()` calls) and wake-ups of
-the lock holder on one limiter object: the pollers served so far, followed by the lock holder and
-the queue, are exactly the pollers in order of arrival. Hence requests are granted in the order in
-which they were made, nobody is overtaken, and (with `C20_single_waiter_bounded` for the holder —
-only the holder polls) a request with `w` requests ahead of it is served within `16·(w+1)`
-disciplined polls of the successive holders: no waiter is starved. -/
+/-- **FIFO service order.** Over every history of requests (`take_tokens()` calls) and wake-ups of the lock holder on
+one limiter object: the pollers served so far, followed by the lock holder and the queue, are exactly the pollers in
+order of arrival. Hence requests are granted in the order in which they were made and nobody is overtaken. -/
 theorem C20_fifo_order (ops : List LOp) (lim : Lim) (now : Nat) :
     let s := lrun { o := { lim := lim, holder := none, queue := [] }, now := now, arrivals := [], served := [] } ops
     s.served ++ waitingList s.o = s.arrivals := by
@@ -157,6 +154,20 @@ theorem C20_bytes_window_counterexample :
     ¬ ((xrun s [.move 0 128, .move 1 128]).moved - s.moved ≤ (xrun s [.move 0 128, .move 1 128]).granted - s.granted) := by
   decide
 
+/-- **Bounded wait, any number of connections.** On a limited limiter (`L ≥ 1024` B/s, i.e. any positive limit) whose
+lock holders really sleep at least 10 ticks (< `INTERVAL`) between polls: over ANY history of further requests and
+wake-ups, a request that has `j` requests ahead of it (the lock holder included) has been granted its tokens after at
+most `16·(j+1)` wake-ups — whoever arrives meanwhile, however the clock jumps. (`idx` identifies the request by its
+position in the order of arrival; `idx - served` requests are ahead of it.) No waiter is starved, and the bound is
+explicit: with the library's 10 ms sleeps, 0.16 s per request ahead at the lowest limit. -/
+theorem C20_bounded_wait (idx : Nat) (ops : List LOp) (s : LockRun) (hi : LInv s)
+    (hf : s.served ++ waitingList s.o = s.arrivals) (hpending : s.served.length ≤ idx) (hreq : idx < s.arrivals.length)
+    (hd : Disciplined ops) (hw : 16 * (idx - s.served.length + 1) ≤ wakes ops) :
+    idx < (lrun s ops).served.length := by
+  apply bounded_wait_aux idx ops s hi hf hpending hreq hd
+  have := rem_le s.o.lim
+  omega
+
 /-- the library's re-poll interval is at least the 10 ticks assumed above, and every positive
 limit is at least the 1024 B/s assumed above (constants regenerated from the source). -/
 theorem C20_constants : 10 * 1000 ≤ intervalMs * tps ∧ 1024 ≤ 1 * bytesPerKb ∧ minBucket ≤ bytesPerKb := by
@@ -182,6 +193,11 @@ example : (nrun { net := { olds := [], cur := .limited { lim := { L := 2048, buc
 example : NLimitsWithin 4096 [.poll 0 0, .setLimit 1, .poll 2 0, .setLimit 0, .setLimit 4] := by simp [NLimitsWithin]; decide
 example : (xrun { holding := [0, 0, 0], granted := 0, moved := 0 }
     [.grant 0 128, .grant 2 8192, .move 2 100, .move 0 128, .grant 0 128]).moved = 228 := by decide
+-- a reachable state meeting the hypotheses of `C20_bounded_wait`: poller 7 holds the lock on an empty bucket, 8 and 9 wait
+example : LInv { o := { lim := { L := 1024, bucket := 3, last := 5 }, holder := some 7, queue := [8, 9] }, now := 5,
+                 arrivals := [7, 8, 9], served := [] } := by
+  refine ⟨by intro h; simp at h, by unfold Lim.WF; decide, by decide, by intro _; decide⟩
+example : Disciplined [.wake 11, .arrive 4 0, .wake 10, .wake 500] := by simp [Disciplined]
 example : 0 < (blockPolls { L := 1024, bucket := 0, last := 0 } 0 (List.replicate 26 (3, 2, 3, 2))).2.2 := by decide
 
 end AioslskVerif.C20
